@@ -1764,6 +1764,112 @@ async fn folder_api_case(init: &StateItem, seq: &[&str], work: &Path) -> Value {
     json!({"fails": fails})
 }
 
+const COPY_OPS: &[&str] = &[
+    "delete_in_original", "delete_in_copy", "update_in_original", "update_in_copy", "move_from_copy", "archive_from_copy",
+    "delete_copy_folder", "delete_original_folder", "create_in_copy", "nothing",
+];
+
+/// Folder copy (C20): the default folder is exported and imported again as
+/// a copy (new folder id, SAME secret ids), then one operation is applied
+/// to the original or to the copy; the incremental index must equal an
+/// index rebuilt from the unlocked folders (documents, counters, queries).
+async fn folder_copy_case(init: &StateItem, opi: usize, work: &Path) -> Value {
+    let b = init.backend;
+    let opname = COPY_OPS[opi];
+    let mut fails: Vec<Value> = vec![];
+    let r: Result<()> = async {
+        let _ = std::fs::remove_dir_all(work);
+        fsutil::copy_dir(Path::new(&init.dir), work)?;
+        clock::install();
+        clock::set_tick(0, 110_000);
+        let account_id: sos_core::AccountId = init.account_id.parse().unwrap();
+        let mut dev = Dev::open(work, b, account_id, pw(0)).await?;
+        let _ = dev.account.initialize_search_index().await;
+        let orig = vid(&init.model.folders[0].id);
+        let other = vid(&init.model.folders[2].id);
+        // two secrets in the original so that label order matters
+        let (m1, s1) = gen::secret("note", 1, "copy-b");
+        dev.account.create_secret(m1, s1, AccessOptions { folder: Some(orig), ..Default::default() }).await?;
+        let sid0 = dev.account.list_secret_ids(&orig).await?.first().copied().ok_or_else(|| anyhow!("no secret in the default folder"))?;
+        let key = AccessKey::Password(secrecy::SecretString::new("folder-copy-password-for-the-export".to_string().into()));
+        let buf = dev.account.export_folder_buffer(&orig, key.clone(), false).await?;
+        let copy = *dev.account.import_folder_buffer(&buf, key, false).await?.folder.id();
+        if copy == orig {
+            return Err(anyhow!("the imported copy kept the folder id"));
+        }
+        let in_f = |f: VaultId| AccessOptions { folder: Some(f), ..Default::default() };
+        let (um, us) = gen::secret("note", 0, "copy-renamed");
+        let res: Result<()> = async {
+            match opname {
+                "delete_in_original" => { dev.account.delete_secret(&sid0, in_f(orig)).await?; }
+                "delete_in_copy" => { dev.account.delete_secret(&sid0, in_f(copy)).await?; }
+                "update_in_original" => { dev.account.update_secret(&sid0, um.clone(), Some(us.clone()), in_f(orig)).await?; }
+                "update_in_copy" => { dev.account.update_secret(&sid0, um.clone(), Some(us.clone()), in_f(copy)).await?; }
+                "move_from_copy" => { dev.account.move_secret(&sid0, &copy, &other, Default::default()).await?; }
+                "archive_from_copy" => { dev.account.archive(&copy, &sid0, Default::default()).await?; }
+                "delete_copy_folder" => { dev.account.delete_folder(&copy).await?; }
+                "delete_original_folder" => { dev.account.delete_folder(&orig).await?; }
+                "create_in_copy" => { let (m, s) = gen::secret("login", 1, "copy-new"); dev.account.create_secret(m, s, in_f(copy)).await?; }
+                _ => {}
+            }
+            Ok(())
+        }
+        .await;
+        let applied = res.is_ok();
+        // oracle: incremental index == index rebuilt from all folders
+        let idx = dev.account.search_index().await?;
+        let idx = idx.read().await;
+        let mut fresh = SearchIndex::new();
+        let folders = dev.account.list_folders().await?;
+        fresh.set_archive_id(folders.iter().find(|f| f.flags().is_archive()).map(|f| *f.id()));
+        for f in &folders {
+            let folder = dev.account.folder(f.id()).await?;
+            let ap = folder.access_point();
+            let ap = ap.lock().await;
+            fresh.add_folder(&ap).await?;
+        }
+        let proj = |i: &SearchIndex| -> Vec<Value> {
+            let mut v: Vec<Value> = i.values().iter().map(|d| json!({"folder": d.folder_id().to_string(), "id": d.id().to_string(), "meta": gen::meta_view(d.meta())})).collect();
+            v.sort_by_key(|v| format!("{}{}", v["folder"], v["id"]));
+            v
+        };
+        let (a, f) = (proj(&idx), proj(&fresh));
+        let tag = format!("{}{}", opname, if applied { "" } else { "(refused)" });
+        if a != f {
+            let d = if a.len() > f.len() { "stale_or_extra_document" } else if a.len() < f.len() { "missing_document" } else { "document_content" };
+            fails.push(json!({"sig": format!("folder_copy:{}:documents_differ:{}:{}", tag, d, b.name()), "what": "after copying a folder (same secret ids in two folders) and one operation the incremental search index differs from an index rebuilt from the folders", "detail": {"operation": opname, "incremental": a.len(), "rebuilt": f.len()}}));
+        }
+        let stat = |i: &SearchIndex| -> Value {
+            let c = i.statistics().count();
+            let nz = |m: BTreeMap<String, usize>| -> BTreeMap<String, usize> { m.into_iter().filter(|(_, v)| *v > 0).collect() };
+            json!({"vaults": nz(c.vaults().iter().map(|(k, v)| (k.to_string(), *v)).collect()), "kinds": nz(c.kinds().iter().map(|(k, v)| (k.to_string(), *v)).collect()), "tags": nz(c.tags().iter().map(|(k, v)| (k.clone(), *v)).collect()), "favorites": c.favorites()})
+        };
+        if stat(&idx) != stat(&fresh) {
+            fails.push(json!({"sig": format!("folder_copy:{}:counters_differ:{}", tag, b.name()), "what": "after copying a folder and one operation the search index counters differ from a recount", "detail": {"operation": opname}}));
+        }
+        for label in ["note-label-v0", "note-label-v1", "login-label-v0", "login-label-v1", "copy"] {
+            let q = |i: &SearchIndex| -> Vec<String> {
+                let mut r: Vec<String> = i.query_map(label, |_| true).iter().map(|d| format!("{}/{}", d.folder_id(), d.id())).collect();
+                r.sort();
+                r
+            };
+            if q(&idx) != q(&fresh) {
+                fails.push(json!({"sig": format!("folder_copy:{}:query_differs:{}", tag, b.name()), "what": "after copying a folder and one operation a query returns different documents from the incremental and the rebuilt index", "detail": {"operation": opname, "query": label}}));
+                break;
+            }
+        }
+        drop(idx);
+        dev.close().await;
+        Ok(())
+    }
+    .await;
+    if let Err(e) = r {
+        let msg: String = e.to_string().chars().filter(|c| !c.is_ascii_digit()).take(60).collect();
+        fails.push(json!({"sig": format!("folder_copy:error:{}:{}", msg, b.name()), "what": format!("{}", e), "detail": {"operation": opname}}));
+    }
+    json!({"fails": fails})
+}
+
 /// Value sweep (C01): every secret value of the structure enumerator (all
 /// kinds x every optional field present / absent x user-data shapes) is
 /// created through the account, read back at once and again after a fresh
@@ -2004,6 +2110,11 @@ async fn initial_state(
     };
     if second_user_folder {
         apply(&mut dev, &mut model, &Op::CreateFolder).await?;
+        // two folders of the account carry the same name (nothing forbids
+        // it): maintenance operations must keep both names
+        let last = model.folders.len() - 1;
+        dev.account.rename_folder(&vid(&model.folders[last].id), "folder-2".to_string()).await?;
+        model.folders[last].name = "folder-2".to_string();
         model.edits = 0;
     }
     // start from a non-empty account: one note in the default folder,
@@ -2052,6 +2163,13 @@ fn main() {
             let seq = folder_seq(idx % total, depth);
             rt.block_on(folder_api_case(init, &seq, &wd2.path().join("w")))
         });
+    }
+    if pool::worker_stage().as_deref() == Some("foldercopy") {
+        let input = std::env::var("VKIT_INPUT").expect("VKIT_INPUT");
+        let inits: Vec<StateItem> = serde_json::from_slice(&std::fs::read(&input).unwrap()).unwrap();
+        let wd2 = fsutil::WorkDir::new("hist-fc");
+        let rt = rt();
+        pool::worker_loop(|idx| rt.block_on(folder_copy_case(&inits[idx / COPY_OPS.len()], idx % COPY_OPS.len(), &wd2.path().join("w"))));
     }
     if pool::worker_stage().as_deref() == Some("valuesweep") {
         let input = std::env::var("VKIT_INPUT").expect("VKIT_INPUT");
@@ -2322,6 +2440,29 @@ fn main() {
         }
         value_sweep = json!({"secret_values_created_and_read_back": created, "values_refused_by_the_sdk": refused, "backends": backends.iter().map(|b| b.name()).collect::<Vec<_>>(), "source": "structure enumerator of the codec engine: every kind x optional fields present/absent x user-data shapes"});
     }
+    // folder copies: the same secret ids in two folders (C20)
+    let mut folder_copy = json!(null);
+    if prop == "C20" && !folder_api_inits.is_empty() && std::env::var("VKIT_FRAGMENT").is_err() {
+        let input = wd.path().join("foldercopy.json");
+        std::fs::write(&input, serde_json::to_vec(&folder_api_inits).unwrap()).unwrap();
+        let mut opts = PoolOpts::default();
+        opts.env.push(("VKIT_INPUT".into(), input.to_string_lossy().to_string()));
+        let total = folder_api_inits.len() * COPY_OPS.len();
+        let mut ran = 0u64;
+        for (i, r) in pool::run_stage("foldercopy", total, &opts).into_iter().enumerate() {
+            match r {
+                pool::ItemResult::Crashed(w) => run.machinery(format!("folder copy case {}: {}", i, w)),
+                pool::ItemResult::Done(v) => {
+                    ran += 1;
+                    transitions += 1;
+                    for f in v["fails"].as_array().unwrap() {
+                        run.fail(f["sig"].as_str().unwrap(), f["what"].as_str().unwrap(), json!({"engine":"hist","stage":"folder_copy","detail": f["detail"]}));
+                    }
+                }
+            }
+        }
+        folder_copy = json!({"cases": ran, "operations": COPY_OPS, "backends": backends.iter().map(|b| b.name()).collect::<Vec<_>>()});
+    }
     // forced overwrites (C02, C20)
     let mut force_merge_cases = json!(null);
     if (prop == "C02" || prop == "C20") && !folder_api_inits.is_empty() && std::env::var("VKIT_FRAGMENT").is_err() {
@@ -2464,6 +2605,7 @@ fn main() {
     cov.insert("folder_api_id_reuse_sequences".into(), json!(folder_api_cases));
     cov.insert("forced_overwrite_cases_(force_merge_folder)".into(), force_merge_cases);
     cov.insert("value_sweep".into(), value_sweep);
+    cov.insert("folder_copy_cases_(same_secret_ids_in_two_folders)".into(), folder_copy);
     cov.insert("merge_worlds_(sync_engine_by_product)".into(), merge_worlds);
     if prop == "C16" {
         cov.insert("completeness_(corruption_enumerator_integx)".into(), completeness);
